@@ -151,7 +151,59 @@ def _z3_text(text, timeout_ms):
     return r, None
 
 
+def model_confirmed(text, model, timeout_ms=20000):
+    """
+    A `sat` answer counts as a refutation only if its model survives an independent check: the obligation is re-read by z3 5.1
+    with every nullary String / Int / Bool constant pinned to the value the model gives.  -> False when z3 then answers
+    `unsat` (the two solvers disagree: a wrong `sat` -- the old string solvers are known for them -- must not become a VIOLATION),
+    True otherwise (`sat`, or `unknown`: no evidence against the model).
+    """
+    if not model:
+        return True
+    try:
+        s = z3.Solver()
+        s.set("timeout", timeout_ms)
+        s.from_string(text)
+        consts = {}
+        for a in s.assertions():
+            stack = [a]
+            seen = set()
+            while stack:
+                e = stack.pop()
+                if e.get_id() in seen:
+                    continue
+                seen.add(e.get_id())
+                if z3.is_const(e) and e.decl().kind() == z3.Z3_OP_UNINTERPRETED:
+                    consts[str(e.decl().name())] = e
+                stack.extend(e.children())
+        from .replay_block import z3_string
+
+        for name, val in model.items():
+            c = consts.get(name)
+            if c is None:
+                continue
+            try:
+                if c.sort() == z3.StringSort():
+                    s.add(c == z3.StringVal(z3_string(val)))
+                elif c.sort() == z3.IntSort():
+                    s.add(c == z3.IntVal(int(str(val).replace("(- ", "-").replace(")", "").replace(" ", ""))))
+                elif c.sort() == z3.BoolSort():
+                    s.add(c == z3.BoolVal(str(val) == "True"))
+            except (ValueError, z3.Z3Exception):
+                continue
+        return s.check() != z3.unsat
+    except z3.Z3Exception:
+        return True
+
+
 def solve_smt2(args):
+    status, backend, dt, model = _solve_smt2(args)
+    if status == REFUTED and not model_confirmed(args[0], model):
+        return UNDECIDED, "%s answered sat, but z3-%s finds the obligation unsat under that very model (solver disagreement: undecided, not a refutation)" % (backend, z3.get_version_string()), dt, None
+    return status, backend, dt, model
+
+
+def _solve_smt2(args):
     """
     Worker: decide one obligation from its SMT-LIB text. -> (status, backend, seconds, model dict or None)
     Order: z3 5.1 with a short budget (most obligations take milliseconds), then cvc5 --strings-exp and z3 4.8 with the
